@@ -428,10 +428,23 @@ func c18RunScenario(ctx *Ctx, res *Result, root string, sc c18Scenario, refDiges
 			viol("C18/fix/other-line-changed", fmt.Sprintf("-F changed distinfo line %d: %q -> %q", i+1, blines[i], alines[i]), map[string]any{"output": q(out2)})
 		}
 	}
-	rewritten := map[string]bool{} // recorded hashes of patches whose file -F rewrote
-	for _, p := range sc.patches {
-		if cur, err := os.ReadFile(filepath.Join(pdir, p.name)); err == nil && string(cur) != p.body {
-			rewritten[p.hash] = true
+	// digests (reference) of every patch before and after -F
+	beforeD := make([]string, len(sc.patches))
+	afterD := make([]string, len(sc.patches))
+	changed := make([]bool, len(sc.patches))
+	for i, p := range sc.patches {
+		cur, err := os.ReadFile(filepath.Join(pdir, p.name))
+		if err != nil {
+			res.Broken = err.Error()
+			return
+		}
+		changed[i] = string(cur) != p.body
+		var e1, e2 error
+		beforeD[i], e1 = refDigest(p.body)
+		afterD[i], e2 = refDigest(string(cur))
+		if e1 != nil || e2 != nil {
+			res.Broken = fmt.Sprint(e1, e2)
+			return
 		}
 	}
 	fixedOK := make([]bool, len(sc.patches))
@@ -458,11 +471,17 @@ func c18RunScenario(ctx *Ctx, res *Result, root string, sc c18Scenario, refDiges
 				if strings.Count(got, p.hash) > 1 {
 					key = "C18/fix/refused/stale-hash-occurs-twice-in-line"
 				}
-			} else if p.kind == "correct" && string(cur) == p.body {
-				key = "C18/fix/correct-entry-rewritten"
-				if rewritten[p.hash] {
-					// its recorded hash equals that of another patch which -F rewrote
-					key = "C18/fix/correct-entry-rewritten/same-digest-as-fixed-patch"
+			} else {
+				if p.kind == "correct" && !changed[i] {
+					key = "C18/fix/correct-entry-rewritten"
+				}
+				// the signature of Package.AutofixDistinfo(before_j, after_j) hitting the line of patch i:
+				// the entry should hold the digest patch j had before -F rewrote it, and holds j's new digest
+				for j, pj := range sc.patches {
+					if j != i && changed[j] && beforeD[j] == ref && got == fmt.Sprintf("SHA1 (%s) = %s\n", p.name, afterD[j]) {
+						_ = pj
+						key = "C18/fix/entry-follows-other-patch-with-same-digest"
+					}
 				}
 			}
 			viol(key, fmt.Sprintf("after -F distinfo has %q, expected %q (makepatchsum digest of %s as it is on disk now)", got, want, p.name),
